@@ -675,7 +675,8 @@ func (cachefile *cacheFile) setData(streamID uint64, streamTime time.Time, conve
 			return fmt.Errorf("failed to write relative packet time: %w", err)
 		}
 		streamSize += uint64(bytesWritten)
-		lastTime = lastTime.Add(relTime)
+		// Only whole microseconds are stored, stay in sync with the times data() reconstructs.
+		lastTime = lastTime.Add(time.Duration(relTime.Microseconds()) * time.Microsecond)
 
 		ct := convertedPacket.ContentType
 		if ct == "" {
